@@ -218,6 +218,38 @@ def run_death(exe, case, scratch, timeout=20.0):
     return before, after
 
 
+def run_odeath(exe, case, scratch, timeout=20.0):
+    """OPES with multiple walkers in lockstep; in the deposition round of step case["T"] walker case["victim"] ends at its
+    (case["die_after"]+1)-th replica call.  Returns the dumps of all walkers before that step and of the survivors after it."""
+    n = case["n"]
+    dirs = []
+    for i in range(n):
+        d = os.path.join(scratch, "y%d" % i)
+        shutil.rmtree(d, ignore_errors=True)
+        os.makedirs(d)
+        dirs.append(d)
+    with W.Team(exe, n, dirs, timeout_ms=case.get("timeout_ms", 400)) as T:
+        setup = ["natoms 1", "samestep 1", "temperature 300", "dt 1", "restartfreq 1000", "new", "config EOF"] + opes_conf(case) + \
+                ["EOF", "show cv 0 energy 0 bias 0 atomf 0"]
+        for r in T.all_do(setup, timeout):
+            if not any(x.startswith("CONFIG err=ok") for x in r):
+                raise W.WalkerTimeout("configuration failed: %s" % r)
+        out = None
+        for t in range(case["T"]):
+            out = T.all_do(lambda i: ["pos 1 0 0 %s" % float(case["steps"][t][i]).hex(), "step", "dumpopes o"], timeout)
+        before = [parse_opes(r) for r in out]
+        T.walkers[case["victim"]].do(["repdie %d" % case["die_after"]], timeout)
+        t = case["T"]
+        toks = [T.walkers[i].send(["pos 1 0 0 %s" % float(case["steps"][t][i]).hex(), "step", "dumpopes o"]) for i in range(n)]
+        after = {}
+        for i in range(n):
+            if i == case["victim"]:
+                continue
+            r = T.walkers[i].collect(toks[i], timeout)
+            after[i] = ([x for x in r if x.startswith("STEP")], parse_opes(r))
+    return before, after
+
+
 # ------------------------------------------------------------------------------------------
 # file-based multiple-walker metadynamics
 # ------------------------------------------------------------------------------------------
